@@ -95,6 +95,21 @@ def r06_1(ctx: Ctx) -> None:
 
 def r06_2(ctx: Ctx) -> None:
     """packpos must be consumed by extraction, test() and the append position."""
+    ps = ctx.prog.method(ctx.prog.cls("SevenZipFile", "py7zr"), "_packed_start")
+    if ps is not None:
+        # the one place that turns packpos into a position: start of the packed area = end of the signature header PLUS packpos, whenever a
+        # PackInfo exists (every fixture of the test suite has packpos 0, so the sign and the guard are invisible to it)
+        rets = [r for r in walk(ps.node) if isinstance(r, ast.Return) and r.value is not None and any(isinstance(x, ast.Attribute) and x.attr == "packpos" for x in ast.walk(r.value))]
+        ctx.floor("R06.2", len(rets), 1, "return of _packed_start that uses packpos")
+        for r in rets:
+            v = r.value
+            ok = isinstance(v, ast.BinOp) and isinstance(v.op, ast.Add) and {("afterheader" in norm(v.left)), ("afterheader" in norm(v.right))} == {True, False} \
+                and ("packpos" in norm(v.left) or "packpos" in norm(v.right))
+            wrong = [(cd, pol) for cd, pol in q.facts_at(ps, r) if (nt := q.is_none_test(cd)) is not None and nt[1] == pol]
+            ctx.check(ok and not wrong, "R06.2", ps, r, "_packed_start = afterheader + packpos wherever a PackInfo exists",
+                      f"_packed_start returns `{norm(v)}`" + (f" under `{norm(wrong[0][0])}` {'true' if wrong[0][1] else 'false'}" if wrong else "") + ": the packed area starts at the end of the "
+                      "signature header plus PackInfo.packpos (archives whose header precedes the data, or with a gap); every member of such an archive is decoded from the wrong offset",
+                      construct="_packed_start arithmetic")
     families = {
         "extraction start": [shared.szf(ctx, "__init__"), shared.szf(ctx, "reset"), shared.szf(ctx, "testzip")],
         "test()": [shared.szf(ctx, "test")],
@@ -732,6 +747,24 @@ def r06_12(ctx: Ctx, rule: str = "R06.12") -> None:
                   "the member->folder walk binds the next non-empty member to `folders[cursor]` without first passing over folders that hold no substream: "
                   "after a folder with NumUnpackStream 0 every later member is bound to the wrong folder and byte position (valid archive refused or wrong data)",
                   construct="zero-stream folder skip")
+    # the walk keeps TWO cursors: the folder number and the number of the folder's first packed stream.  Wherever the folder cursor is advanced
+    # (passing over an empty folder, finishing a folder) the stream cursor is advanced in the same block by the folder's own packed-stream count
+    fsteps = [n for n in walk(g.node) if isinstance(n, ast.AugAssign) and isinstance(n.op, ast.Add) and isinstance(n.target, ast.Attribute) and n.target.attr == "folder"]
+    ctx.floor(rule, len(fsteps), 2, "advances of the folder cursor in _real_get_contents")
+    from ..model import parent_map
+    pm = parent_map(g.node)
+    for st in fsteps:
+        blk = pm.get(st)
+        sibs = [x for fld in ("body", "orelse") for x in (getattr(blk, fld, []) if isinstance(getattr(blk, fld, None), list) else []) if any(y is st for y in getattr(blk, fld))]
+
+        def is_stream_count(e: ast.AST) -> bool:
+            t = norm(q.expand_locals(g, e))
+            return "num_packed_streams" in t or "numinstreams" in t or "packed_indices" in t
+        ok = any(isinstance(x, ast.AugAssign) and isinstance(x.op, ast.Add) and isinstance(x.target, ast.Attribute) and x.target.attr == "stream"
+                 and norm(x.target.value) == norm(st.target.value) and is_stream_count(x.value) for x in sibs)
+        ctx.check(ok, rule, g, st, "the stream cursor advances with the folder cursor, by the folder's packed-stream count",
+                  f"`{norm(st)}` moves the walk to the next folder without moving the packed-stream cursor by that folder's number of packed streams: the sizes taken for every later "
+                  "member (`compressed`, `packsizes`: what the decoder is told to read) are those of another folder's streams", construct="stream cursor not advanced with the folder")
     # (b) ---------------------------------------------------------------------------------------------------------
     f = ctx.prog.func("archiveinfo", "SubstreamsInfo._read")
 
